@@ -5,7 +5,7 @@ RULE = ("packet signature with boundary-biased fields; signature derived to matc
         "catalogue with one entry per decision of the matcher (TTL gap around 0/max_dist, ttl-, each quirk bit on either side, "
         "version, eol pad, olen, mss/scale/payload wildcard/equal/off-by-one, every window form, layout edits); the signature is "
         "given to the implementation as TEXT (TCPSignature.parse is inside the tie); sweeps over TTL pairs and single/double quirk "
-        "differences; non-trivial = the model reports a match; distinct by input")
+        "differences; the same decision through fingerprint_tcp on real bytes (one-record databases), also for packets with HOSTILE option areas whose record is written from what the verified extractor reads from those bytes; non-trivial = the model reports a match; distinct by input")
 GEN_TIE = ['match']     # the anchored decision functions are also TRANSLATED from /repo's source on every run and proved equal to the model
 ASSUMPTIONS = ["packet signatures are constructed directly (any quirk set, as the quantifier demands); extraction from bytes is C03's tie"]
 EXHAUSTIVE = {"sig ttl 1..255 step x pkt ttl x md in {0,1,34,35,36,255} x bad_ttl (thorough: full 255x256)": True,
@@ -65,6 +65,8 @@ def generate(R, tier):
     # matcher together; SYN / SYN+ACK with every extra flag bit, link framing, option layouts
     from harness.props import c02
     for c in c02.single_record_cases(R, n // 15, "api-one-record"):
+        yield c
+    for c in c02.witness_record_cases(R, n // 30, "api-witness-hostile-options"):
         yield c
 
 
